@@ -126,7 +126,27 @@ def pattern_list(draw, text_mode, exact, min_text=0, max_len=4, stream=None):
             j = min(len(stream), i + d(st.integers(1, 5)))
             piece = stream[i:j]
             return piece if exact else re.escape(piece)
-        pt = st.one_of(base, from_stream(), from_stream())
+        if exact:
+            pt = st.one_of(base, from_stream(), from_stream())
+        else:
+            # ... and pieces of the stream under a start/end anchor or a look-behind: whether these match
+            # depends on where the searched window begins, not only on the text
+            @st.composite
+            def anchored(d):
+                piece = d(from_stream())
+                k = d(st.integers(0, 5))
+                if k == 0:
+                    return '^' + piece
+                if k == 1:
+                    return r'\A' + piece
+                if k == 2:
+                    return piece + '$'
+                if k == 3:
+                    return '(?<!' + re.escape(d(st.sampled_from(stream))) + ')' + piece
+                if k == 4:
+                    return '(?<=' + re.escape(d(st.sampled_from(stream))) + ')' + piece
+                return '^.' + piece
+            pt = st.one_of(base, from_stream(), from_stream(), anchored())
     else:
         pt = base
     out = []
@@ -156,12 +176,20 @@ def pattern_list(draw, text_mode, exact, min_text=0, max_len=4, stream=None):
 
 
 @st.composite
-def call(draw, text_mode, ops, stream=None):
+def call(draw, text_mode, ops, stream=None, cut_chars=None, inst_w=None):
     op = draw(st.sampled_from(ops))
     c = {'op': op}
     if op in ('expect', 'expect_list', 'expect_c'):
         c['pats'] = draw(pattern_list(text_mode, False, stream=stream))
         c['w'] = draw(windows())
+        W = inst_w if c['w'] == -1 else c['w']
+        if stream and cut_chars and isinstance(W, int) and draw(st.integers(0, 3)) == 0:
+            # a piece of the stream anchored to the start of the searched text, placed where a window of W
+            # characters (or one more, or one fewer) begins after some read: decides "the last W characters"
+            at = draw(st.sampled_from(cut_chars)) - W + draw(st.sampled_from([0, 0, 1, -1]))
+            at = max(0, min(len(stream) - 1, at))
+            piece = re.escape(stream[at:at + draw(st.integers(1, max(1, W - 1)))])
+            c['pats'] = c['pats'][:3] + [{'re': draw(st.sampled_from(['^', r'\A', '^'])) + piece}]
         c['timeout'] = draw(timeouts())
         c['single'] = (len(c['pats']) == 1 and draw(st.booleans()))
     elif op == 'expect_exact':
@@ -205,7 +233,12 @@ def cases(draw, ops=None, max_calls=6, modes=(False, True), max_syms=14, allow_m
                 marks[str(i)] = 't'
             elif k == 1:
                 marks[str(i)] = 'tf'
-    calls = draw(st.lists(call_strategy(text_mode, s) if call_strategy else call(text_mode, ops or ALL_OPS, stream=s),
+    if cuts and draw(st.integers(0, 2)) == 0:
+        cuts = sorted(cuts + [draw(st.sampled_from(cuts))])        # an empty read
+    cut_chars = sorted(set(len(data[:c].decode('utf-8', 'ignore')) for c in cuts)) if s else None
+    inst_w = draw(st.sampled_from([None, None, None, 2, 4]))
+    calls = draw(st.lists(call_strategy(text_mode, s) if call_strategy
+                          else call(text_mode, ops or ALL_OPS, stream=s, cut_chars=cut_chars, inst_w=inst_w),
                           min_size=1, max_size=max_calls))
     return {
         'enc': enc,
@@ -214,7 +247,7 @@ def cases(draw, ops=None, max_calls=6, modes=(False, True), max_syms=14, allow_m
         'marks': marks,
         'tail': draw(st.sampled_from(['eof', 'eof', 'timeout'])),
         'maxread': draw(st.sampled_from([2000, 2000, 1, 2, 3, 7])),
-        'sws': draw(st.sampled_from([None, None, None, 2, 4])),
+        'sws': inst_w,
         'calls': calls,
     }
 
